@@ -43,6 +43,12 @@ def check(prog, rep):
     rep.section(_bounds, prog, rep, {fi.module.name for fi, _c in mins})
     rep.section(_x0, prog, rep)
     rep.section(_auto, prog, rep)
+    from .c10 import late_binding_sites
+    bad, total = late_binding_sites(prog)
+    bad = [b for b in bad if b[0].module.name.startswith("optyx.solvers")]
+    for f, n, fv in bad:
+        rep.ob("R09.1", f.qual.split(":")[1], False, f"a callable handed to SciPy is created in a loop and reads the loop-variant name(s) {fv} as free variables (late binding): every constraint ends up using the last iteration's value, so SciPy solves a different problem than a hand-written call", loc=f"{f.module.rel}:{n.lineno}", detail=f"late-binding:{','.join(fv)}")
+    rep.ob("R09.1", "solver callables", not bad, "no callable handed to SciPy reads a loop-variant name late", detail="no-late-binding", loc=None)
     rep.expect_min("R09.1", 12)
     rep.expect_min("R09.2", 1)
     rep.expect_min("R09.3", 3)
